@@ -113,7 +113,8 @@ def check(ctx, src):
     has_mangle_of(im, lambda a: isinstance(a, ast.Name) and a.id == "name", "install_macro key", comp.mc, "(defmacro my-mac [] 1) (my_mac) does not find the macro")
     me = comp.mc.func("macroexpand")
     ctx.require(me is not None, "macroexpand not found")
-    n_m = [c for c in pyq.calls(me) if dotted(c.func) == "mangle" or (dotted(c.func) == "map" and c.args and dotted(c.args[0]) == "mangle")]
+    fns_me = [me] + [comp.mc.func(c.func.id) for c in pyq.calls(me) if isinstance(c.func, ast.Name) and comp.mc.func(c.func.id) is not None and c.func.id != "macroexpand"]
+    n_m = [c for fn_ in fns_me for c in pyq.calls(fn_) if dotted(c.func) == "mangle" or (dotted(c.func) == "map" and c.args and dotted(c.args[0]) == "mangle")]
     ctx.check(len(n_m) >= 2, "R-ID-MANGLE-RT", f"{comp.mc.rel}|macroexpand|lookup key", "macroexpand does not mangle the head symbol (and dotted head) before the lookup",
               comp.mc.rel, me.lineno, witness="(my-mac) and (my_mac) resolve differently", detail=f"{len(n_m)} mangle sites")
     rq = comp.mc.func("require")
